@@ -1,23 +1,8 @@
 //! vcheck <property> <quick|thorough>  |  vcheck <property> --replay <file>
 #![allow(dead_code, unused_imports)]
-mod evidence;
-mod faults;
-mod httpfront;
-mod known;
-mod model;
-mod ops;
-mod world;
-mod panics;
-mod plain;
-mod plugbox;
-mod sched;
-mod props;
-mod runner;
-mod simnode;
-mod towerbox;
-mod tsync;
 
-use runner::Ctx;
+use vharness::runner::Ctx;
+use vharness::{faults, panics, props};
 
 fn main() {
     let args: Vec<String> = std::env::args().collect();
